@@ -93,3 +93,87 @@ Definition rs_spec (rs : Q -> Q) : Prop := forall a, 0 < a -> 0 < rs a /\ rs a *
 Theorem sada_direction_factor (rs : Q -> Q) : rs_spec rs ->
   forall delta s, 0 < delta -> 0 <= s -> rs (delta + s) * rs (delta + s) * (delta + s) == 1.
 Proof. intros Hrs delta s Hd Hs. apply (Hrs (delta + s)). lra. Qed.
+
+(* ---------- lossless S-AdaGrad IS full-matrix AdaGrad (matrix level) ---------- *)
+(* In any (non-commutative) algebra of d x d matrices over Q:  let Pi = P^T P be the projector onto
+   the sketch's row space, Qc = I - Pi, Dm = P^T diag(s) P the sketch (= the exact covariance when
+   the history is lossless, C09), Fm = P^T diag(rsqrt(delta + s)) P.  S-AdaGrad preconditions with
+   X = Fm + rsqrt(delta) * Qc.  Then  X X (delta I + Dm) = I : X is an inverse square root of
+   delta I + C, i.e. full-matrix AdaGrad's preconditioner. *)
+Section Lossless.
+  Variable M : Type.
+  Variables (mul add : M -> M -> M) (one zero : M) (sm : Q -> M -> M).
+  Notation "x * y" := (mul x y).
+  Notation "x + y" := (add x y).
+  Hypothesis mul_assoc : forall a b c, a * (b * c) = (a * b) * c.
+  Hypothesis distr_l : forall a b c, a * (b + c) = a * b + a * c.
+  Hypothesis distr_r : forall a b c, (a + b) * c = a * c + b * c.
+  Hypothesis mul_0_l : forall a, zero * a = zero.
+  Hypothesis mul_0_r : forall a, a * zero = zero.
+  Hypothesis add_0_l : forall a, zero + a = a.
+  Hypothesis add_0_r : forall a, a + zero = a.
+  Hypothesis add_assoc : forall a b c, a + (b + c) = (a + b) + c.
+  Hypothesis add_comm : forall a b, a + b = b + a.
+  Hypothesis mul_1_l : forall a, one * a = a.
+  Hypothesis sm_mul_l : forall q a b, (sm q a) * b = sm q (a * b).
+  Hypothesis sm_mul_r : forall q a b, a * (sm q b) = sm q (a * b).
+  Hypothesis sm_add : forall q a b, sm q (a + b) = sm q a + sm q b.
+  Hypothesis sm_sm : forall p q a, sm p (sm q a) = sm (p * q)%Q a.
+  Hypothesis sm_ext : forall p q a, (p == q)%Q -> sm p a = sm q a.
+  Hypothesis sm_1 : forall a, sm 1%Q a = a.
+  Hypothesis sm_zero : forall q, sm q zero = zero.
+
+  Variables (Pi Qc Dm Fm : M) (delta a : Q).
+  Hypothesis split_one : Pi + Qc = one.
+  Hypothesis PiQc : Pi * Qc = zero.
+  Hypothesis QcPi : Qc * Pi = zero.
+  Hypothesis FmPi : Fm * Pi = Fm.
+  Hypothesis PiFm : Pi * Fm = Fm.
+  Hypothesis PiDm : Pi * Dm = Dm.
+  Hypothesis root_on_sketch : (Fm * Fm) * (sm delta Pi + Dm) = Pi.
+  Hypothesis root_of_delta : (a * a * delta == 1)%Q.
+
+  Lemma QcQc : Qc * Qc = Qc.
+  Proof.
+    rewrite <- (mul_1_l Qc) at 3. rewrite <- split_one. rewrite distr_r, PiQc, add_0_l. reflexivity.
+  Qed.
+  Lemma FmQc : Fm * Qc = zero.
+  Proof. rewrite <- FmPi. rewrite <- mul_assoc, PiQc. apply mul_0_r. Qed.
+  Lemma QcFm : Qc * Fm = zero.
+  Proof. rewrite <- PiFm. rewrite mul_assoc, QcPi. apply mul_0_l. Qed.
+  Lemma QcDm : Qc * Dm = zero.
+  Proof. rewrite <- PiDm. rewrite mul_assoc, QcPi. apply mul_0_l. Qed.
+
+  Definition Xs : M := Fm + sm a Qc.                   (* S-AdaGrad's preconditioner *)
+  Definition As : M := sm delta one + Dm.              (* delta I + C *)
+
+  Lemma Xs_squared : Xs * Xs = Fm * Fm + sm (a * a)%Q Qc.
+  Proof.
+    unfold Xs. rewrite distr_r, !distr_l.
+    rewrite (sm_mul_r a Fm Qc), FmQc, sm_zero, add_0_r.
+    rewrite (sm_mul_l a Qc Fm), QcFm, sm_zero, add_0_l.
+    rewrite (sm_mul_l a Qc (sm a Qc)), (sm_mul_r a Qc Qc), QcQc, sm_sm. reflexivity.
+  Qed.
+
+  Lemma As_split : As = (sm delta Pi + Dm) + sm delta Qc.
+  Proof.
+    unfold As. rewrite <- split_one, sm_add.
+    rewrite <- (add_assoc (sm delta Pi) (sm delta Qc) Dm), (add_comm (sm delta Qc) Dm), add_assoc.
+    reflexivity.
+  Qed.
+
+  Theorem sada_lossless_is_full_adagrad : (Xs * Xs) * As = one.
+  Proof.
+    rewrite Xs_squared, As_split. rewrite distr_r.
+    rewrite (distr_l (Fm * Fm) (sm delta Pi + Dm) (sm delta Qc)).
+    rewrite (distr_l (sm (a * a)%Q Qc) (sm delta Pi + Dm) (sm delta Qc)).
+    rewrite (distr_l (sm (a * a)%Q Qc) (sm delta Pi) Dm).
+    rewrite root_on_sketch.
+    rewrite (sm_mul_r delta (Fm * Fm) Qc), <- (mul_assoc Fm Fm Qc), FmQc, mul_0_r, sm_zero, add_0_r.
+    rewrite (sm_mul_l (a * a)%Q Qc (sm delta Pi)), (sm_mul_r delta Qc Pi), QcPi, !sm_zero.
+    rewrite (sm_mul_l (a * a)%Q Qc Dm), QcDm, sm_zero, add_0_l.
+    rewrite (sm_mul_l (a * a)%Q Qc (sm delta Qc)), (sm_mul_r delta Qc Qc), QcQc, sm_sm.
+    rewrite (sm_ext (a * a * delta)%Q 1%Q Qc root_of_delta), sm_1.
+    rewrite ?add_0_l, ?add_0_r. exact split_one.
+  Qed.
+End Lossless.
